@@ -9,4 +9,15 @@ package util
 // the pod's name and namespace. ASSUMED here; the key grammar itself is the subject of C11.
 //@ func FormatKey trusted
 //@   modifies fresh KeyObj.*
-//@   ensures result0 != nil && fresh(result0) && result0.KeyInDB == keyOfPod(pod) && result0.PodName == pod.Name && result0.Namespace == pod.Namespace
+//@   ensures result0 != nil && fresh(result0) && result0.KeyInDB == keyOfPod(pod) && result0.PodName == pod.Name && result0.Namespace == pod.Namespace && result0.AppTypePrefix == appTypeOf(pod)
+
+// the prefixes are deterministic functions of four fields of the key object (ASSUMED: the bodies
+// are fmt.Sprintf calls over exactly these fields)
+//@ uninterp poolPrefixStr(pool string, typ string, ns string, app string) string
+//@ uninterp poolAppPrefixStr(pool string, typ string, ns string, app string) string
+//@ func (*KeyObj).PoolPrefix trusted noeffect
+//@   requires [C18] k != nil
+//@   ensures result == poolPrefixStr(k.PoolName, k.AppTypePrefix, k.Namespace, k.AppName)
+//@ func (*KeyObj).PoolAppPrefix trusted noeffect
+//@   requires [C18] k != nil
+//@   ensures result == poolAppPrefixStr(k.PoolName, k.AppTypePrefix, k.Namespace, k.AppName)
